@@ -141,6 +141,8 @@ def run_unit(unit: dict) -> dict:
         dump = db.dump_index(root)
         byz = dump.by_zid()
         files = {rel: (root / rel).read_text() for rel in z.pages if (root / rel).exists()}
+        # own metadata by (page, line), known from the abstract pages (only for indexes built by `db create` alone)
+        own_by_pl = {} if idx % 3 == 1 else {(rel, e.line_no): e for rel, es in z.expected().items() for e in es}
         # items whose text form is known not to round-trip (known finding): done todo whose body starts with Pn
         for wi, w in enumerate(WHERES):
             for oi, o in enumerate(ORDERS):
@@ -202,6 +204,15 @@ def run_unit(unit: dict) -> dict:
                             diffs.append("priority")
                         if n.create_date.isoformat() != row["create"] or n.modify_date.isoformat() != row["modify"]:
                             diffs.append("dates")
+                        e = own_by_pl.get((row["page"], row["line"]))
+                        if e is not None and all(row["props"].get(k) == v for k, v in e.own_props.items()) and n.body == row["body"]:
+                            # own tags / links / properties of the emitted text (inherited ones are not part of it)
+                            if dict(n.properties) != e.own_props:
+                                diffs.append("own properties")
+                            for a in ("areas", "contexts", "people", "projects", "links"):
+                                if sorted(getattr(n, a)) != e.own_tags[a]:
+                                    diffs.append("own " + a)
+                            acc.count("select.own_metadata_judged")
                         if diffs:
                             fin = FINDING_DONE_PN if (diffs == ["body"] and row["kind"] in "x~" and row["body"].split(" ", 1)[0][:1] == "P") else None
                             acc.violation(f"{route}: {q!r}: note {n.zid} recompiles with different {diffs}: {row['body']!r} -> {n.body!r}", dict(case, rendered=text), cls="recompiled note differs: " + ",".join(diffs), finding=fin)
